@@ -286,6 +286,42 @@ def run(ctx):
                                  f"behaviour; in practice the high bits wrap into a value the "
                                  f"kernel accepts) for arguments outside the encodable range")
 
+    # ------------------------------------------------------------------- R9
+    ctx.rule("C17.R9", "mount entries are read whole: with getmntent() (libc's own line "
+             "buffer), or with getmntent_r() given a buffer at least as large as libc's "
+             "(4096 bytes) - a smaller one silently truncates long option strings", floor=1)
+    nm_ = 0
+    for file, fn in funcs:
+        for n in C.walk(fn):
+            if n.get("kind") != "CallExpr" or C.callee(n) not in ("getmntent", "getmntent_r"):
+                continue
+            nm_ += 1
+            key = f"{fn['name']}:{C.callee(n)}"
+            if C.callee(n) == "getmntent":
+                ctx.ok("C17.R9", key, sample="getmntent(): libc-managed buffer")
+                continue
+            args = C.call_args(n)
+            size = None
+            if len(args) >= 4:
+                so = _sizeof_target(args[3])
+                size = C.int_value(args[3])
+                if size is None and so:
+                    # sizeof(buf): find the array declaration
+                    for d in C.walk(fn):
+                        if d.get("kind") == "VarDecl" and d.get("name") == so[0]:
+                            m_ = re.search(r"\[(\d+)\]", C.qtype(d))
+                            if m_:
+                                size = int(m_.group(1)) + so[1]
+            if size is not None and size >= 4096:
+                ctx.ok("C17.R9", key, sample=f"getmntent_r(buffer of {size} bytes)")
+            else:
+                ctx.fail("C17.R9", key, fn["_file"], n["_line"], fn["name"],
+                         f"getmntent_r() is given a {size if size is not None else 'non-constant'}"
+                         f"-byte buffer: a mounts line longer than that (overlay mounts with "
+                         f"many layers) is silently cut, disk_partitions() reports truncated "
+                         f"options")
+    ctx.require(nm_ >= 1, "no getmntent()/getmntent_r() call found in the Linux sources")
+
     # ------------------------------------------------------------------- R8
     ctx.rule("C17.R8", "argument parsing is checked: every PyArg_ParseTuple result is "
              "tested and a failure leaves the function before any parsed variable is "
